@@ -214,6 +214,10 @@ def judge(m, root, case, viols, where="live"):
             if exp is not None and safe(lambda: m.D.formula is not None) is True:
                 item = "D[1]" + deriver[1:]
                 see(item + ".t", expected_item("D", "D(1)", exp, mode), "item-nested:" + mode)
+        # a top-level deriver named like the last component of the nested definer
+        last = definer.split(".")[-1]
+        if safe(lambda: last in m.spaces and "t" in m.spaces[last]._own_refs) is True:
+            see(last + ".t", expected_static(definer, last, target, mode), "static-samename:" + mode)
         return nchecked
     if definer == "A":
         for sub in ("Sub", "SubSub", "Sub2"):
@@ -307,7 +311,8 @@ def alphabet(root):
         for mode in MODES:
             for t in (d, d + ".x", "Out", "A.B"):
                 ops.append(setref(d, t, mode))
-        ops += [py("del m.%s.t" % d), py("m.D[1]", False), py("m.D.clear_items()"), py("WRITEREAD:dir"),
+        ops += [py("m.new_space(%r, bases=[m.%s])" % (d.split(".")[-1], d)),
+                py("del m.%s.t" % d), py("m.D[1]", False), py("m.D.clear_items()"), py("WRITEREAD:dir"),
                 py("m.%s.new_cells('w', formula='lambda: 0')" % d)]
         return ops
     targets = TARGETS_A if d == "A" else TARGETS_T
